@@ -1509,8 +1509,13 @@ class VM:
         def includes_fn(*args):
             search = args[0] if args else UNDEFINED
             start = relative_index(args[1], len(arr._elements)) if len(args) > 1 else 0
+            search_is_nan = isinstance(search, float) and search != search
             for i in range(start, len(arr._elements)):
-                if vm._strict_equals(arr._elements[i], search):
+                elem = arr._elements[i]
+                # SameValueZero: like ===, except that NaN is found
+                if vm._strict_equals(elem, search) or (
+                    search_is_nan and isinstance(elem, float) and elem != elem
+                ):
                     return True
             return False
 
